@@ -11,6 +11,10 @@ Tie, three kinds of case against the Lean driver `drv-need`:
   guard   a FloScript whose conditions sit in an auxiliary framer — either a plain `aux worker` or a MOOT framer run
           as a clone (`aux worker as w1`) — as a `let me if <needs>` entry guard and a `go hit if <needs>` transition;
           observed: frame blocked / entered and transition taken or not / TypeError
+  clones  a moot framer cloned two or three times (`aux worker as wa`, `… as wb`, …; the clones run one after the
+          other, so their clocks start at different ticks) whose `go hit if <needs>` uses framer-relative operands
+          (elapsed, recurred, `x of framer`, `y of framer`) that are given different values per instance; observed per
+          instance: taken at which evaluation / not taken, compared with the model run per instance
 Every case is in mode q (ints and dyadic floats: float arithmetic exact, compared with the exact-rational
 instantiation the theorems are about) or mode f (decimal-grid and random doubles, on and one ulp next to the band
 edges goal-|tol|, goal+|tol|: compared bit for bit with the same definitions instantiated at Lean Float).
@@ -31,6 +35,10 @@ import core
 CMPS = ["==", "!=", "<", "<=", ">=", ">"]
 # key -> (path, explicit field or None) as written in a script; 0/1 are the framer clocks
 REFS = {2: (".a.x", None), 3: (".a.s", None), 4: (".g.v", "value"), 5: (".g.w", "lim"), 6: (".b.y", None)}
+
+
+# framer-relative operands of the `clones` kind: key -> share name under .framer.<instance>.
+RELS = {7: "x", 8: "y"}
 
 
 def py(tok):
@@ -150,7 +158,9 @@ class CHECK(core.Check):
             "Nact; script: FloScript `go hit if [not] need [and …]` (1..3 clauses, direct and indirect goals, explicit "
             "fields, framer clocks elapsed/recurred) through Builder + Skedder, shares set after build; guard: the "
             "same conditions as `let me if` entry guard and `go` transition inside an auxiliary framer that is either plain "
-            "or a moot framer run as a clone (`aux worker as w1`). 30% of the random cases of every kind in mode f: "
+            "or a moot framer run as a clone (`aux worker as w1`); clones: a moot framer cloned 2 or 3 times in sequence, "
+            "`go hit if` on framer-relative operands (elapsed, recurred, `x of framer`) with different values per "
+            "instance, every instance compared with its own model run. 30% of the random cases of every kind in mode f: "
             "numbers from decimal grids (k/10, k/20, k/100) and random doubles, the state on the computed band edges "
             "goal-|tol|, goal+|tol|, one ulp inside/outside them (math.nextafter) and on decimal neighbours. "
             "Bounded-exhaustive: check over a 13-value set x 7 operators x 3 tolerances (thorough: 17 values x 8 x 5). "
@@ -317,7 +327,43 @@ class CHECK(core.Check):
         cs = [self._clause(rng, clocks=clocks) for _ in range(rng.choice([1, 1, 2, 2, 3][:max(1, nmax + 2)]))][:nmax]
         return cs, self._env(rng, cs)
 
+    def _rclause(self, rng):
+        """a clause on framer-relative operands (clocks, `x of framer`)"""
+        neg = rng.random() < 0.25
+        r = rng.random()
+        if r < 0.35:
+            k = rng.choice([0, 1])
+            goal = rng.choice(["q:1/4", "q:3/8", "q:1/2", "i:2", "i:3", "q:1/8", "i:1"])
+            g = {"lit": goal} if rng.random() < 0.7 else {"ref": rng.choice([7, 8])}
+            return {"neg": neg, "kind": "c", "k": k, "cmp": rng.choice([">=", ">=", ">", "==", "<=", "<", "!="]), "goal": g,
+                    "tol": rng.choice(["i:0", "i:0", "q:1/8"])}
+        if r < 0.45:
+            return {"neg": neg, "kind": "b", "k": rng.choice([7, 8])}
+        k = rng.choice([7, 8])
+        g = {"lit": rng.choice(["i:3", "i:1", "q:5/2", "i:0", "s:a", "i:2"])} if rng.random() < 0.6 else \
+            {"ref": rng.choice([x for x in (7, 8, 4) if x != k])}
+        return {"neg": neg, "kind": "c", "k": k, "cmp": rng.choice(CMPS), "goal": g,
+                "tol": rng.choice(["i:0", "i:0", "q:1/2", "i:1"])}
+
+    RELVALS = ["i:0", "i:1", "i:2", "i:3", "q:5/2", "q:7/2", "i:5", "q:1/4", "q:3/8", "s:a", "s:b", None, True]
+
+    def _clones_case(self, rng):
+        n = rng.choice([2, 2, 3])
+        cs = [self._rclause(rng) for _ in range(rng.choice([1, 1, 2]))]
+        env = {"4": self._val(rng, "num")} if any(c["kind"] == "c" and c["goal"].get("ref") == 4 for c in cs) else {}
+        rel = []
+        for _ in range(n):
+            e = {}
+            for k in ("7", "8"):
+                if rng.random() < 0.9:
+                    e[k] = rng.choice(self.RELVALS[:9]) if rng.random() < 0.85 else rng.choice(self.RELVALS)
+            rel.append(e)
+        return {"kind": "clones", "mode": "q", "clauses": cs, "env": env, "rel": rel, "period": "q:1/8",
+                "limit": rng.choice([3, 4])}
+
     def generate(self, rng, n, tier):
+        for i in range(max(30, n // 10)):
+            yield self._clones_case(rng)
         n_script = max(40, n // 8)
         n_guard = max(40, n // 8)
         n_acts = n // 4
@@ -394,6 +440,8 @@ class CHECK(core.Check):
             return [self._impl_acts(case)]
         if kind == "guard":
             return [self._impl_guard(case)]
+        if kind == "clones":
+            return self._impl_clones(case)
         return [self._impl_script(case)]
 
     def _impl_acts(self, case):
@@ -434,6 +482,8 @@ class CHECK(core.Check):
             return "elapsed"
         if k == 1:
             return "recurred"
+        if k in RELS:
+            return "%s of framer" % RELS[k]
         path, field = REFS[k]
         return "%s in %s" % (field, path) if field else path
 
@@ -496,6 +546,77 @@ class CHECK(core.Check):
                 os.rmdir(d)
             except OSError:
                 pass
+
+    def clones_text(self, case):
+        tags = ["wa", "wb", "wc"][:len(case["rel"])]
+        main = ""
+        for i, t in enumerate(tags):
+            nxt = "m%d" % (i + 1) if i + 1 < len(tags) else "fin"
+            main += ("   frame m%d\n      aux worker as %s\n      go %s if aux %s is done\n"
+                     "      go fail if elapsed >= 4\n" % (i, t, nxt, t))
+        return ("house test\n\nframer main be active first m0\n" + main +
+                "   frame fin\n      bid stop all\n   frame fail\n      put 1 into .out.fail\n      bid stop all\n\n"
+                "framer worker be moot first A\n   frame A\n      put 0 into n of framer\n      put 0 into r of framer\n"
+                "      go next\n   frame B\n      recur\n         inc n of framer with 1\n"
+                "      go hit if %s\n      go miss if n of framer >= %d\n   frame hit\n      put 1 into r of framer\n"
+                "      done\n   frame miss\n      put 2 into r of framer\n      done\n"
+                % (self.cond_text(case["clauses"]), case["limit"]))
+
+    def _impl_clones(self, case):
+        from ioflo.base import skedding
+        tags = ["wa", "wb", "wc"][:len(case["rel"])]
+        d = os.path.join(core.SCRATCH, "c21-%d" % os.getpid())
+        os.makedirs(d, exist_ok=True)
+        path = os.path.join(d, "clones.flo")
+        with open(path, "w") as f:
+            f.write(self.clones_text(case))
+        try:
+            sk = skedding.Skedder(name="c21", period=py(case["period"]), real=False, filepath=path)
+            if not sk.build():
+                return ["BUILD-FAILED"] * len(tags)
+            store = sk.houses[0].store
+            for k, tok in case["env"].items():
+                p, field = REFS[int(k)]
+                sh = store.fetch(p)
+                if sh is not None:
+                    sh[field or "value"] = py(tok)
+            for t, e in zip(tags, case["rel"]):
+                for k, tok in e.items():
+                    sh = store.fetch(".framer.main_%s.%s" % (t, RELS[int(k)]))
+                    if sh is not None:                    # only operands the script mentions exist
+                        sh["value"] = py(tok)
+            raised = False
+            try:
+                sk.run()
+            except TypeError:
+                raised = True
+            out = []
+            for t in tags:
+                r = store.fetch(".framer.main_%s.r" % t)
+                n = store.fetch(".framer.main_%s.n" % t)
+                r, n = (r["value"] if r is not None else None), (n["value"] if n is not None else None)
+                if out and out[-1] in ("E TypeError", "-"):
+                    out.append("-")
+                elif r == 1:
+                    out.append("hit %d" % n)
+                elif r == 2:
+                    out.append("miss")
+                elif raised:
+                    out.append("E TypeError")
+                else:
+                    out.append("? r=%r n=%r" % (r, n))
+            return out
+        finally:
+            try:
+                os.remove(path)
+                os.rmdir(d)
+            except OSError:
+                pass
+
+    def _inst_env(self, case, i):
+        e = dict(case["env"])
+        e.update(case["rel"][i])
+        return e
 
     def _impl_guard(self, case):
         store, err = self._run_flo(self.guard_text(case), case)
@@ -572,10 +693,22 @@ class CHECK(core.Check):
             return ["%s check %s %s %s %s" % (m, wire(case["state"], m), cmp_, wire(case["goal"], m), wire(case["tol"], m))]
         if case["kind"] == "acts":
             return ["%s all %s %s" % (m, self._env_wire(case["env"], m), self._clause_wire(case["clause"], m))]
+        if case["kind"] == "clones":
+            return ["%s frame %s %d %s %s" % (m, wire(case["period"], m), case["limit"],
+                                              self._env_wire(self._inst_env(case, i), m), cl(case["clauses"]))
+                    for i in range(len(case["rel"]))]
         if case["kind"] == "guard":
             return ["%s guarded %s %s %s" % (m, self._env_wire(case["env"], m), cl(case["guard"]), cl(case["clauses"]))]
         return ["%s frame %s %d %s %s" % (m, wire(case["period"], m), case["limit"], self._env_wire(case["env"], m),
                                           cl(case["clauses"]))]
+
+    def model_post(self, case, replies):
+        if case["kind"] != "clones":
+            return replies
+        out = []
+        for r in replies:                                 # the instances run one after the other: nothing after a raise
+            out.append("-" if out and out[-1] in ("E TypeError", "-") else r)
+        return out
 
     # ------------------------------------------------------------------ oracle
     def _spec_clause(self, c, env):
@@ -599,7 +732,33 @@ class CHECK(core.Check):
                 return False
         return True
 
+    def _spec_frame(self, clauses, env, period, limit):
+        for j in range(1, limit + 1):
+            e = dict(env)
+            e["0"] = "q:%d/%d" % ((period * j).numerator, (period * j).denominator)
+            e["1"] = "i:%d" % j
+            r = self._spec_all(clauses, e)
+            if r == "TypeError":
+                return "E TypeError"
+            if r:
+                return "hit %d" % j
+        return "miss"
+
     def oracle(self, case, out):
+        if case["kind"] == "clones":
+            if len(out) != len(case["rel"]):
+                return "unexpected output %r" % (out,)
+            period = F(py(case["period"]))
+            stop = False
+            for i, got in enumerate(out):
+                want = "-" if stop else self._spec_frame(case["clauses"], self._inst_env(case, i), period, case["limit"])
+                if want == "E TypeError":
+                    stop = True
+                if got != want:
+                    return "clone %d of %d, `go hit if %s` with its own operands %s: %s, the written condition gives %s" % (
+                        i + 1, len(out), self.cond_text(case["clauses"]),
+                        {k: py(v) for k, v in self._inst_env(case, i).items()}, got, want)
+            return None
         if len(out) != 1:
             return "unexpected output %r" % (out,)
         got = out[0]
@@ -651,11 +810,17 @@ class CHECK(core.Check):
     def nontrivial(self, case, out):
         if not out or out[0].startswith(("E", "?", "BUILD", "HARNESS")):
             return False
+        if case["kind"] == "clones":
+            return len(set(out)) > 1                      # the instances behaved differently
         if case["kind"] == "check":
             return case["state"] != case["goal"]
         return True
 
     def bucket(self, case, out):
+        if case["kind"] == "clones":
+            kinds = sorted({o.split()[0] for o in out})
+            differ = len(set(out)) > 1
+            return "clones/%d/%s/%s" % (len(case["rel"]), "instances-differ" if differ else "instances-agree", "+".join(kinds))
         res = out[0].split()[0] if out else "none"
         res = case.get("mode", "q") + "/" + res
         if case["kind"] == "guard":
@@ -676,6 +841,18 @@ class CHECK(core.Check):
         return "script/%dclauses%s/%s" % (len(case["clauses"]), "/clock" if clocks else "", res)
 
     def shrink_candidates(self, case):
+        if case["kind"] == "clones":
+            if len(case["clauses"]) > 1:
+                for i in range(len(case["clauses"])):
+                    c = dict(case)
+                    c["clauses"] = case["clauses"][:i] + case["clauses"][i + 1:]
+                    yield c
+            if len(case["rel"]) > 2:
+                for i in range(len(case["rel"])):
+                    c = dict(case)
+                    c["rel"] = case["rel"][:i] + case["rel"][i + 1:]
+                    yield c
+            return
         if case["kind"] == "guard":
             for key in ("guard", "clauses"):
                 if len(case[key]) > (0 if key == "guard" else 1):
